@@ -57,10 +57,12 @@ PROPS["C15"] = dict(driver="pagesim", budget=dict(quick=30, thorough=600), chunk
 PROPS["C16"] = dict(driver="locksim+consim", budget=dict(quick=40, thorough=600), chunk=100, rule=UNIT_RULE + "; concurrent part: 2-6 transaction tasks issue the same requests under the seeded scheduler, compatibility invariant after every step",
     technique="seeded request sequences on the real LockManager/TransactionManager against an abstract lock table (sequential part; the concurrent part runs under the controlled scheduler)",
     assumptions=["LockUpgrade is only requested when the model says the caller holds the shared lock (the API's stated precondition)"])
-PROPS["C13"] = dict(driver="bpmsim", budget=dict(quick=30, thorough=600), chunk=200, rule=UNIT_RULE,
-    technique="seeded new/fetch/modify/unpin/flush/deallocate sequences on the real BufferPoolManager (file-backed and in-memory disk managers, pools of 1-8 frames) against a pageID->bytes model",
+PROPS["C13"] = dict(driver="bpmsim+consim", budget=dict(quick=40, thorough=900), chunk=100,
+    rule=UNIT_RULE + "; concurrent part (alternating chunks): 2-5 user tasks and 1-2 flusher tasks use the real BufferPoolManager under the seeded scheduler; every page has one owning task (the only writer), so each fetch has an exact expected content; pools a few frames larger than the pins that can be held, so frames are evicted, re-read, flushed, deallocated and re-allocated while other tasks hold pins",
+    technique="seeded new/fetch/modify/unpin/flush/deallocate sequences on the real BufferPoolManager (file-backed and in-memory disk managers, pools of 1-8 frames) against a pageID->bytes model; concurrent part under the seeded scheduler (deterministic simulation: preemption at every latch, mutex and disk call) with single-writer pages and exact expected bytes",
     assumptions=["operations the pool must refuse (all frames pinned) are generated only when the model says a frame is available, so a nil page or a 'Victim' panic means a lost frame",
-                 "a user unpins its own pins before deallocating a page"])
+                 "a user unpins its own pins before deallocating a page",
+                 "concurrent part: a task that changed a pinned page releases the pin with dirty=true; pool size >= tasks x (held pins + 1 transient pin) + flushers + 1"])
 CON_RULE = ("one evaluation = one simulated concurrent execution: client tasks, the request manager loop, one worker task per request and "
             "(in half of the runs) the checkpoint and statistics threads all run under the seeded scheduler (policies: uniform random, "
             "sticky, PCT with 1-4 change points, round-robin), with the virtual clock advanced at decision points so that the 30 s / 10 s "
